@@ -6,6 +6,7 @@ import (
 	"sort"
 	"strings"
 	"testing"
+	"time"
 
 	sdk "github.com/cosmos/cosmos-sdk/types"
 	banktypes "github.com/cosmos/cosmos-sdk/x/bank/types"
@@ -25,7 +26,7 @@ import (
 
 func TestMain(m *testing.M) { drv.Main(m) }
 
-const rule = "state machine on the real application (tx semantics): 3 funded actors and one poor actor (1000 units of each denom: its messages mostly name amounts it does not own and must fail as a whole), 5 shared denoms; create balancer pools (2-5 assets, weights 1..2^20-1, spread 0..5%) and stableswap pools (2-5 assets, scaling factors 1..1e6), MsgJoinPool, MsgJoinSwapExternAmountIn, MsgJoinSwapShareAmountOut, MsgExitPool (incl. dust exits of 1..1000 share units), MsgExitSwapShareAmountIn, MsgExitSwapExternAmountOut, 1-3 hop MsgSwapExactAmountIn/Out (a fifth of the exact-in swaps with a minimum output that cannot be met: computed, then rejected), split routes exact-in and exact-out through poolmanager, two-message transactions whose second message fails (the first message's swap is rolled back with it), direct bank sends to a pool address, default/per-pair taker fee changes; oracle after every step: bank balance of each pool account == reserves the pool reports + directly sent, bank supply of each gamm/pool/N == total shares the pool reports, supply of every non-share denom unchanged, and around every message the balance deltas of all tracked accounts (actors, pools, every module account) sum to zero per denom; single-hop swaps: taker-fee collector receives exactly in - floor(in(1-f)) (exact in) or ceil(x/(1-f)) - x (exact out); failed messages leave the digest unchanged; non-trivial = >= 2 pools touched, a multi-hop swap, a single-asset join or exit and a failed message; distinct by history hash"
+const rule = "state machine on the real application (tx semantics): 3 funded actors and one poor actor (1000 units of each denom: its messages mostly name amounts it does not own and must fail as a whole), 5 shared denoms; create balancer pools (2-5 assets, weights 1..2^20-1, spread 0..5%; a third of them weight-changing: start now..+1h, duration 1m..1d, target entries carrying creation amounts, zero or arbitrary token fields) with block time advancing by 1s..3d between messages, and stableswap pools (2-5 assets, scaling factors 1..1e6), MsgJoinPool, MsgJoinSwapExternAmountIn, MsgJoinSwapShareAmountOut, MsgExitPool (incl. dust exits of 1..1000 share units), MsgExitSwapShareAmountIn, MsgExitSwapExternAmountOut, 1-3 hop MsgSwapExactAmountIn/Out (a fifth of the exact-in swaps with a minimum output that cannot be met: computed, then rejected), split routes exact-in and exact-out through poolmanager, two-message transactions whose second message fails (the first message's swap is rolled back with it), direct bank sends to a pool address, default/per-pair taker fee changes; oracle after every step: bank balance of each pool account == reserves the pool reports + directly sent, bank supply of each gamm/pool/N == total shares the pool reports, supply of every non-share denom unchanged, and around every message the balance deltas of all tracked accounts (actors, pools, every module account) sum to zero per denom; single-hop swaps: taker-fee collector receives exactly in - floor(in(1-f)) (exact in) or ceil(x/(1-f)) - x (exact out); failed messages leave the digest unchanged; non-trivial = >= 2 pools touched, a multi-hop swap, a single-asset join or exit and a failed message; distinct by history hash"
 
 var denoms = []string{"aaa", "bbb", "ccc", "ddd", "uosmo"}
 
@@ -305,7 +306,29 @@ func TestPropGamm(t *testing.T) {
 					assets = append(assets, balancer.PoolAsset{Weight: osmomath.NewInt(rapid.Int64Range(1, 1<<20-1).Draw(rt, "w"+d)), Token: coin(d, amt)})
 				}
 				fee := osmomath.NewDecWithPrec(rapid.Int64Range(0, 500).Draw(rt, "spreadBp"), 4)
-				msg := balancer.NewMsgCreateBalancerPool(chain.Actor(a), balancer.PoolParams{SwapFee: fee, ExitFee: osmomath.ZeroDec()}, assets, "")
+				params := balancer.PoolParams{SwapFee: fee, ExitFee: osmomath.ZeroDec()}
+				if rapid.IntRange(0, 2).Draw(rt, "weightChanging") == 0 {
+					// a pool whose weights move linearly to target weights (liquidity bootstrapping): the target entries carry
+					// a token field that is documented as ignored - the creation amounts, zero, or anything else
+					var target []balancer.PoolAsset
+					for _, as := range assets {
+						tok := as.Token
+						switch rapid.IntRange(0, 2).Draw(rt, "targetTokenField"+tok.Denom) {
+						case 1:
+							tok = sdk.NewCoin(tok.Denom, osmomath.ZeroInt())
+						case 2:
+							tok = sdk.NewCoin(tok.Denom, osmomath.NewInt(rapid.Int64Range(1, 1<<50).Draw(rt, "targetTok"+tok.Denom)))
+						}
+						target = append(target, balancer.PoolAsset{Weight: osmomath.NewInt(rapid.Int64Range(1, 1<<20-1).Draw(rt, "tw"+tok.Denom)), Token: tok})
+					}
+					params.SmoothWeightChangeParams = &balancer.SmoothWeightChangeParams{
+						StartTime:         c.Ctx.BlockTime().Add(time.Duration(rapid.SampledFrom([]int64{0, int64(time.Minute), int64(time.Hour)}).Draw(rt, "lbpStartIn"))),
+						Duration:          time.Duration(rapid.SampledFrom([]int64{int64(time.Minute), int64(time.Hour), int64(24 * time.Hour)}).Draw(rt, "lbpDuration")),
+						TargetPoolWeights: target,
+					}
+					cs.Class("weight-changing-pool-created")
+				}
+				msg := balancer.NewMsgCreateBalancerPool(chain.Actor(a), params, assets, "")
 				r, b0, b1 := run("createBalancer", &msg, false)
 				if r.OK() {
 					newPool(r, false)
@@ -313,6 +336,11 @@ func TestPropGamm(t *testing.T) {
 					_ = b0
 					w.hist = append(w.hist, fmt.Sprintf("createBalancer#%d fee=%s %v", w.pools[len(w.pools)-1], fee, assets))
 				}
+			},
+			"advanceTime": func(rt *rapid.T) {
+				dt := time.Duration(rapid.SampledFrom([]int64{int64(time.Second), int64(time.Minute), int64(30 * time.Minute), int64(time.Hour), int64(24 * time.Hour), int64(72 * time.Hour)}).Draw(rt, "dt"))
+				c.Advance(dt)
+				w.hist = append(w.hist, fmt.Sprintf("+%s", dt))
 			},
 			"createStable": func(rt *rapid.T) {
 				if len(w.pools) >= 5 {
